@@ -122,3 +122,20 @@ pub fn system_now() -> std::time::SystemTime {
 // ------------------------------------------------------------------------------------------ uuid v4 source
 global!(UUID_SOURCE, set_uuid_source, uuid_source, u128, 0);
 pub fn new_uuid_v4() -> uuid::Uuid { unsafe { uuid::Uuid::from_u128(UUID_SOURCE) } }
+
+// ------------------------------------------------------------------------------------------ Lazy (R13)
+/// Single-task model of `std::sync::LazyLock` (no Once / atomics / union of init-fn and value, which CBMC handles
+/// poorly): the value is computed on first access and kept in an Option.
+pub struct Lazy<T> { init: fn() -> T, cell: std::cell::UnsafeCell<Option<T>> }
+unsafe impl<T> Sync for Lazy<T> {}
+impl<T> Lazy<T> {
+    pub const fn new(init: fn() -> T) -> Self { Lazy { init, cell: std::cell::UnsafeCell::new(None) } }
+    pub fn force(this: &Self) -> &T {
+        unsafe {
+            let slot = &mut *this.cell.get();
+            if slot.is_none() { *slot = Some((this.init)()); }
+            match slot { Some(v) => v, None => unreachable!() }
+        }
+    }
+}
+impl<T> std::ops::Deref for Lazy<T> { type Target = T; fn deref(&self) -> &T { Lazy::force(self) } }
